@@ -24,3 +24,14 @@ Definition c20_run (c : list (string * rhs) * list msg * bool * list (string * l
   | None => 5
   | Some r => if negb (run_valid r h complete) then 0 else if negb (delivery_ok sent accepted) then 2 else 1
   end.
+
+(* the race of parse_next_remote_packet: (complete table, alive table, number of units of the sender, forecast types in the order the code
+   iterates over them, what the implementation accepted: type and number of the sender's units removed from the buffer).
+   1 = agrees with the model; 0 = differs *)
+Definition c20_choose (c : table * table * nat * list string * option (string * nat)) : nat :=
+  let '(complete, alive, n, cands, real) := c in
+  match choose complete alive n cands, real with
+  | None, None => 1
+  | Some (nt, k), Some (nt', k') => if Nat.eqb k k' && (String.eqb nt nt' || negb (Nat.eqb (List.length (filter (fun p => Nat.eqb (snd p) k) (race complete alive n 1 cands []))) 1)) then 1 else 0
+  | _, _ => 0
+  end.
